@@ -465,6 +465,12 @@ def hint_to_python(h):
         return SHALLOW[h[1]][0](rec(h[2]))
     if t == 'annot':
         return typing.Annotated[(rec(h[1]),) + tuple(vexp_to_python(v) for v in h[2])]
+    if t == 'tvar_constr':
+        return typing.TypeVar('TC%d' % len(h[1]), *[rec(x) for x in h[1]])
+    if t == 'tvar_bound':
+        return typing.TypeVar('TB', bound=rec(h[1]))
+    if t == 'newtype':
+        return typing.NewType('NT', rec(h[1]))
     raise ValueError(h)
 
 
